@@ -3,6 +3,8 @@
 extern crate proto_vulcan;
 mod sexp;
 mod fdcase;
+mod prog;
+mod comp;
 
 use sexp::Sexp;
 use std::io::{BufRead, Write};
@@ -12,6 +14,7 @@ fn run_case(e: &Sexp) -> String {
     let l = e.list();
     match l[0].atom() {
         "fd" => fdcase::run(&l[1..]),
+        "prog" => prog::run(&l[1..]),
         k => panic!("harness: unknown case kind {}", k),
     }
 }
